@@ -355,6 +355,28 @@ func runC20(c *fw.Ctx) {
 				text = gen.PrintCanonical(cs.Script).Text
 			}
 		}
+		if class == "typed" && r.Chance(1, 4) {
+			// a variable whose value comes from the metadata given to the command
+			var plain []*gen.VarDecl
+			for _, d := range cs.Script.Vars {
+				if d.Origin == nil {
+					plain = append(plain, d)
+				}
+			}
+			if len(plain) > 0 {
+				d := plain[r.Intn(len(plain))]
+				acct, key := r.Pick("cfg", "a", "users:001"), r.Pick("k", "limit", "a key")
+				d.Origin = &gen.Call{Name: "meta", Args: []gen.Expr{gen.A(acct), gen.S(key)}}
+				if cs.Meta[acct] == nil {
+					cs.Meta[acct] = map[string]string{}
+				}
+				cs.Meta[acct][key] = cs.Vars[d.Name]
+				delete(cs.Vars, d.Name)
+				text = gen.Print(cs.Script, gen.Layout{Kind: r.Intn(gen.NumLayouts), R: r}).Text
+				class = "typed+input-metadata"
+				c.Count("scripts_reading_input_metadata", 1)
+			}
+		}
 		if class == "typed" && r.Chance(1, 8) {
 			// a text that starts with a byte order mark (what some editors write at the start of a file)
 			text = "\ufeff" + text
@@ -535,6 +557,10 @@ func oneCase(c *fw.Ctx, r *rng.R, dir, id, class, text string, cs *gen.Case) boo
 		case parseFailed:
 			if pr.code == 0 {
 				c.Violation("run-exit-status:parse-error", "the script has parse errors but `numscript run` exits with 0", input(ex))
+				return false
+			}
+			if msg := po.Errors[0].Msg; !strings.Contains(pr.stderr, msg) && !strings.Contains(pr.stderr, "panic:") {
+				c.Violation("run-parse-error-message", fmt.Sprintf("the library reports the parse error %q; stderr of `numscript run` (%s) does not contain it", msg, ch.name), input(ex))
 				return false
 			}
 			c.Count("run_parse_error_compared", 1)
